@@ -145,6 +145,14 @@ TrCount ==
   /\ curCnt' = Put(curCnt, <<R.tid, R.kind>>, Get(curCnt, <<R.tid, R.kind>>, 0) + R.value)
   /\ UNCHANGED <<sc, phase, p, st, initStart, tsStart, tsEnd, cnt, snap, calls, rounds, panicSeen, bad, lastSize, expCnt, expAl>>
 
+(* The last constant counter of kind k given to the Bencher after its input  *)
+(* counters, -1 if none.                                                    *)
+LateOf(scn, k) ==
+  IF ~Has(scn, "late_counters") THEN -1
+  ELSE LET idx == {j \in DOMAIN scn.late_counters : scn.late_counters[j][1] = k} IN
+       IF idx = {} THEN -1
+       ELSE scn.late_counters[CHOOSE j \in idx : \A m \in idx : m <= j][2]
+
 NoInfo == [alloc |-> <<0, 0>>, dealloc |-> <<0, 0>>, grow |-> <<0, 0>>, shrink |-> <<0, 0>>,
            max_count |-> 0, max_size |-> 0, cur_count |-> 0, cur_size |-> 0]
 EmptyInfo(i) == i.alloc = <<0, 0>> /\ i.dealloc = <<0, 0>> /\ i.grow = <<0, 0>> /\ i.shrink = <<0, 0>>
@@ -252,7 +260,12 @@ TrReport ==
        \cup Flag(R.stats_status = "ok" /\ R.stats.iter_count # Len(R.durations) * R.sample_size,
                  "C03:reported_iters_figure")
        \cup (IF phase = "returned" /\ st.mode # "none" /\ ~p.test /\
-                \E i \in DOMAIN sc.input_counters : R.counts[sc.input_counters[i] + 1] # expCnt[sc.input_counters[i]]
+                \E i \in DOMAIN sc.input_counters :
+                   LET k == sc.input_counters[i] IN
+                   \* a constant counter of the same kind given to the Bencher afterwards
+                   \* "overrides an existing counter of the same type" (Bencher::counter)
+                   IF LateOf(sc, k) >= 0 THEN R.counts[k + 1] # <<LateOf(sc, k)>>
+                   ELSE R.counts[k + 1] # expCnt[k]
              THEN {"C05:per_input_counter_values_differ_from_the_samples_inputs"}
                   \cup Flag(p.sOpt = -1, "C19:counter_data_of_earlier_rounds_not_discarded")
              ELSE {})
